@@ -121,13 +121,6 @@ def run(env) -> Result:
         cd0 = eng.case_data(Lc)
         if not Tc.__compiled__:
             res.feat("fallback-to-interpreted")
-        # fallback: a class the generator cannot handle (pointer member, pointer type not struct-packable) is not compiled
-        need = s2_ptr.classes_needing_fallback(Tc)
-        for path, cls in need:
-            res.feat("fallback-required:unpackable-pointer")
-            if cls.__compiled__:
-                eng.report(f"{path} has pointer members and the pointer type {ptr} is not struct-packable, so the source generator cannot handle "
-                           f"it, but it did not fall back to the interpreted reader (__compiled__ is True)", cd0, sigs)
         if Ti.__compiled__:
             eng.report("a definition loaded with compiled=False has a generated reader installed", eng.case_data(Li), sigs)
         # layout
@@ -204,6 +197,13 @@ def run(env) -> Result:
                         if not ok:
                             eng.disagree(f"model execution of the plan gives {raw[:300]}, the compiled reader gives {str(want)[:300]}", meta, sigs)
                     eng.ask(sx([A("execplan"), Lc.cfg_sexp(), Lc.ty_sexp(), psx, data, 0]), cb_ex, cd)
+        # fallback: a class the generator cannot handle (pointer member, pointer type not struct-packable) is not compiled
+        need = s2_ptr.classes_needing_fallback(Tc)
+        for path, cls in need:
+            res.feat("fallback-required:unpackable-pointer")
+            if cls.__compiled__:
+                eng.report(f"{path} has pointer members and the pointer type {ptr} is not struct-packable, so the source generator cannot handle "
+                           f"it, but it did not fall back to the interpreted reader (__compiled__ is True)", cd0, sigs)
         # every cut point of one accepted buffer
         if accepted is not None:
             full, _ = real_parse(Ti, accepted)
@@ -241,7 +241,7 @@ def run(env) -> Result:
     pseqs = [[(k, f)] for k, f in ptrs.items()]
     pairs = [[(k, f), (n, g)] for k, f in ptrs.items() for n, g in near.items()] + [[(n, g), (k, f)] for k, f in ptrs.items() for n, g in near.items()]
     pairs += [[(k, f), (k2, f2)] for k, f in ptrs.items() for k2, f2 in ptrs.items()]
-    pseqs += pairs if tier == "thorough" else rnd.sample(pairs, 90)
+    pseqs += pairs if tier == "thorough" else rnd.sample(pairs, 60)
     for seq in pseqs:
         fields = []
         for i, (_, mk) in enumerate(seq):
